@@ -1,6 +1,7 @@
 import PtVerif.Proofs.GrammarYield
 import PtVerif.Proofs.GrammarDefined
 import PtVerif.Proofs.GrammarDen
+import PtVerif.Proofs.GrammarBalanced
 import PtVerif.Model.GrammarTable
 /-!
 # C01 — a formula string denotes exactly the composition its documented grammar says;
@@ -49,6 +50,34 @@ theorem yield_atoms (T : Table) (d : Comp) (fs : Items Cnt) (h : d.items T = som
 theorem parse_atoms_defined (T : Table) (s : List Char) (fs : Items Cnt) (d : Option Dens)
     (h : parse T s = .ok (fs, d)) : AllAtoms (Defined T) fs := parse_defined T s fs d h
 
+/-- **every accepted string is a string of the documented grammar, with that meaning**: for every
+    table and *every* string, if the parser returns a formula then the string is the yield of a
+    derivation (well-formed tokens; blanks only where the implementation tolerates them) that
+    denotes exactly that structure and density tag – with every element defined in the table.
+    Nothing outside the (whitespace-tolerant) documented language is ever accepted. -/
+theorem parse_sound (T : Table) (s : List Char) (fs : Items Cnt) (d : Option Dens)
+    (h : parse T s = .ok (fs, d)) :
+    ∃ D : Compound, D.wf = true ∧ D.text = s ∧ D.result T = some (fs, d) :=
+  Grammar.parse_sound T s fs d h
+
+/-- **unbalanced brackets are rejected**: in an accepted string each of `( )`, `[ ]`, `{ }` opens
+    as often as it closes -/
+theorem unbalanced_rejected (T : Table) (s : List Char) (o c : Char) (hp : Pair o c)
+    (hne : s.count o ≠ s.count c) (fs : Items Cnt) (d : Option Dens) : parse T s ≠ .ok (fs, d) :=
+  fun h => hne (accepted_balanced T s fs d h o c hp)
+
+/-- **a malformed count, isotope, ion or density tag is rejected**: an accepted string decomposes
+    into well-formed tokens (`Compound.wf`: every count is `[1-9][0-9]*` or
+    `(0|[1-9][0-9]*|)[.][0-9]*` but not a lone `.`, every isotope tag `[ number ]`, every ion tag
+    `{ number? sign }`, the density tag `@count` with `n`/`i`), so a string with no such
+    decomposition is not accepted -/
+theorem malformed_rejected (T : Table) (s : List Char)
+    (hno : ∀ D : Compound, D.wf = true → D.text ≠ s) (fs : Items Cnt) (d : Option Dens) :
+    parse T s ≠ .ok (fs, d) := by
+  intro h
+  obtain ⟨D, hw, ht, _⟩ := Grammar.parse_sound T s fs d h
+  exact hno D hw ht
+
 /-- the fuel of the model is no restriction: any larger fuel gives the same result (success,
     failure or exception), so `parse` is the fuel-free recursive descent -/
 theorem fuel_is_no_restriction (T : Table) (s : List Char) (n : Nat) (h : fuelFor s ≤ n) :
@@ -95,5 +124,22 @@ example : badIso.canon = true ∧ badIso.text = "(Fe[99])2".toList ∧ badIso.re
   decide +kernel
 example : parse genTable "H2Xx".toList = .error .abort :=
   undefined_rejected genTable badSym (by decide +kernel) (by decide +kernel)
+
+/-- the repaired density tag: `H2O@` (D11), `H2O@n`, `H2O@ 1` are rejected, `H2O @1.5 n ` is read -/
+example : parse genTable "H2O@".toList = .error .fail ∧ parse genTable "H2O@n".toList = .error .fail ∧
+    parse genTable "H2O@ 1".toList = .error .fail ∧
+    parse genTable "H2O @1.5 n ".toList =
+      .ok (.cons ⟨2, 0⟩ (.atom ⟨1, 0, 0⟩) (.cons ⟨1, 0⟩ (.atom ⟨8, 0, 0⟩) .nil), some (.nat ⟨15, 1⟩)) := by
+  decide +kernel
+
+/-- one malformation of each kind from the fixed list, on concrete strings -/
+example : parse genTable "H2O)".toList = .error .fail ∧ parse genTable "(H2O".toList = .error .fail ∧
+    parse genTable "O[18".toList = .error .fail ∧ parse genTable "O[018]".toList = .error .fail ∧
+    parse genTable "Fe{2}".toList = .error .fail ∧ parse genTable "Fe{+2}".toList = .error .fail := by
+  decide +kernel
+example : parse genTable "H01".toList = .error .fail ∧ parse genTable "H1e3".toList = .error .fail ∧
+    parse genTable "H.".toList = .error .abort ∧ parse genTable "D[2]".toList = .error .abort ∧
+    parse genTable "Fe{9+}".toList = .error .abort ∧ parse genTable "H[99]".toList = .error .abort := by
+  decide +kernel
 
 end PtVerif.C01
